@@ -4,7 +4,8 @@ the current k-mer × palindrome(cur) × flip × present × available × #incomin
 graph route likewise with the link triple) is equal, row by row, to the step rule of the statement — both directions of
 the iff: a missing conjunct over-merges, an extra one under-merges; the side asked of the neighbour, the canonicalisation
 and the operands of join/availability are the specified ones; the growth loops leave only on Terminal and walk both
-directions from every seed; palindrome definition and the Exts query lemmas (one bit layout for all queries)."""
+directions from every seed; palindrome definition and the Exts query lemmas (one bit layout for all queries).
+Added later: both chain tables (lines, rings, hairpins); index-builder tables; is_compressed never reports a pair that cannot be joined; the no-extensions entry point; filter_kmers tables."""
 from .. import dt_compress, dt_tables, dt_graph, lemmas, dt_filter
 from . import common
 
